@@ -18,6 +18,7 @@ LEVEL_NOTE = 'Trusted: Lean kernel + standard axioms; engine model tied by corre
 def streams(rng, tier, seed):
     n = 150 if tier == "quick" else 4000
     progs = [ec.gen_flat(rng, sched=True) for _ in range(n)] + [ec.gen_nested(rng, both=False) for _ in range(n // 3)]
+    progs += [ec.gen_nscript(rng) for _ in range(n // 4)]       # wake-ups of a node the readiness gate holds back
     progs += [ec.gen_try_sched(rng) for _ in range(n // 3)]     # wake-ups pending in a child whose cycle an exception ends
     return [ec.engine_stream("engine-sched", progs)]
 
